@@ -8,7 +8,7 @@ receptions *between* uplinks (`rxc`).  The async front-end of a Class C device d
 parameters, and every frame heard there goes to `Mac::handle_rxc` at once — after the uplink was
 built and before the window's own frame is handled.  An accepted frame there moves `fcnt_down`,
 `fcnt_up`, `adr_ack_cnt` and the ACK flag in the middle of the procedure, which no sequence of
-`Ev` events reproduces (`Lemmas/Refine.lean`, `classC_inside_*`).
+`Ev` events reproduces (`Props/C06.lean`: `classC_inside_*`, a concrete script evaluated on both sides).
 
 This file adds the event shapes for it, WITHOUT touching `Ev`/`step`/`run`:
 * `EvC.base e` — an event of `Model/History.lean`, with `step`'s semantics;
@@ -19,7 +19,7 @@ This file adds the event shapes for it, WITHOUT touching `Ev`/`step`/`run`:
   `get_rxc_config` (as in the code).  `get_rxc_config` is part of the semantics wherever the
   front-end calls it (before listening, and in `window_complete`).
 With `cc = false` (Class A) or no frame heard in between, `uplinkC`/`joinC` are exactly
-`uplink`/`joinOtaa` (`Lemmas/Refine.lean`: `stepC_uplinkC_plain`, `stepC_joinC_plain`).
+`uplink`/`joinOtaa` (`Lemmas/RefinePlain.lean`: `stepC_plain`, `runC_plain`).
 
 Core-only imports.
 -/
@@ -160,11 +160,5 @@ def validEvC (r : RegionId) : EvC → Bool
   | .uplinkC _ data fport _ _ c1 rx1 c2 rx2 =>
     (fport != 0 || data.isEmpty) && decide (data.length ≤ 222) && csWF c1 && rxWF rx1 && csWF c2 && rxWF rx2
   | .joinC _ _ c1 rx1 c2 rx2 => csWF c1 && rxWF rx1 && csWF c2 && rxWF rx2
-
-/-- the `Ev` an event of the extended histories projects to when the frames heard in between are
-forgotten (used to read the trace predicates of the history theorems on extended histories) -/
-def EvC.isJoin : EvC → Bool
-  | .base (.joinAbp _ _ _) | .base (.joinOtaa _ _ _ _ _) | .joinC _ _ _ _ _ _ => true
-  | _ => false
 
 end Model
